@@ -19,7 +19,7 @@ ARG_MC = {
     'C01': dict(decls=[1, 2, 9], policy=['opts', 'clusters'], popts=['<<>>', '<<"PassDoubleDash">>'], handlers=['none'],
                 maxlen=(2, 3), thorough_decls=[1, 2, 8, 9, 6]),
     'C03': dict(decls=[4, 5], policy=['opts', 'cmds', 'odd', 'unknown'], popts=PASS3, handlers=['none'], maxlen=(3, 4), thorough_decls=[4, 5, 3]),
-    'C04': dict(decls=[1, 3, 8], policy=['opts', 'cmds', 'odd', 'unknown', 'help'], popts=DEFAULTISH + ['<<"HelpFlag", "PrintErrors">>'],
+    'C04': dict(decls=[1, 3, 8], policy=['opts', 'cmds', 'odd', 'unknown', 'help', 'fmt'], popts=DEFAULTISH + ['<<"HelpFlag", "PrintErrors">>'],
                 handlers=['none', 'error'], maxlen=(2, 3), thorough_decls=[1, 3, 5, 7, 8, 9]),
     'C06': dict(decls=[7], policy=['opts', 'cmds', 'clusters'], popts=['<<>>', '<<"PassDoubleDash">>'], handlers=['none'], maxlen=(3, 5), thorough_decls=[7, 3]),
     'C07': dict(decls=[2, 3, 10], policy=['opts', 'cmds', 'unknown', 'near'], popts=['<<>>', '<<"IgnoreUnknown">>'],
@@ -775,6 +775,8 @@ class HelpFamily(SessionFamily):
                 e = dict(sc); e['kind'] = 'errhelp'; extra.append(e)
             if sc['width'] == 80:
                 e = dict(sc); e['kind'] = 'man'; extra.append(e)
+            if sc['width'] % 5 == 1:
+                e = dict(sc); e['kind'] = 'rehelp'; extra.append(e)
         return states, gen, scns + extra, d, dict(module='MC_Help', decls=decls, widths='0..%d' % mw)
 
     def random_part(self, ctx, prop, kind, repeat=1):
